@@ -99,6 +99,7 @@ typedef @M@Instance Inst;
 #define NINST 8
 static Inst insts[NINST];
 static int cur = -1;
+static FILE* OUT;
 static jmp_buf jb;
 static volatile int trapCode, trapCount;
 void trap(Trap t) { trapCode = (int)t; trapCount++; longjmp(jb, 1); }
@@ -139,36 +140,37 @@ static U64 sets[64][256]; static int setN[64];
 static void memHash(wasmMemory* m, int step) {
   U32 a = 0x811c9dc5u, b = 0x01000193u; U64 n = (U64)m->pages * 65536u, i;
   for (i = 0; i < n; i++) { U32 c = m->data[i]; a = (a ^ c) * 0x01000193u; b = (U32)((b + c) * 0x85ebca6bu) ^ (b >> 13); }
-  printf("%d m pages=%u h=0x%llx\n", step, m->pages, ((U64)a << 32) | (U64)b);
+  fprintf(OUT, "%d m pages=%u h=0x%llx\n", step, m->pages, ((U64)a << 32) | (U64)b);
 }
 static void doCall(int step, int inst, int fk, const U64* a, int n) {
   U64 r = 0; int i; volatile int before = trapCount;
-  printf("%d c %d", step, fk);
-  for (i = 0; i < n; i++) printf(" 0x%llx", a[i]);
-  printf(" -> "); fflush(stdout);
+  fprintf(OUT, "%d c %d", step, fk);
+  for (i = 0; i < n; i++) fprintf(OUT, " 0x%llx", a[i]);
+  fprintf(OUT, " -> "); fflush(OUT);
   cur = inst;
   if (setjmp(jb) == 0) {
     thunks[fk].fn(&insts[inst], a, &r);
-    if (thunks[fk].ret[0] == 'v') printf("void\n"); else printf("%s:0x%llx\n", thunks[fk].ret, r);
+    if (thunks[fk].ret[0] == 'v') fprintf(OUT, "void\n"); else fprintf(OUT, "%s:0x%llx\n", thunks[fk].ret, r);
   } else {
-    printf("trap:%s%s\n", trapName(trapCode), (trapCount - before) == 1 ? "" : ":MULTI");
+    fprintf(OUT, "trap:%s%s\n", trapName(trapCode), (trapCount - before) == 1 ? "" : ":MULTI");
   }
 }
 int main(int argc, char** argv) {
-  FILE* f; static char line[1 << 20]; int step = 0;
+  FILE* f; static char line[1 << 23]; int step = 0;
   if (argc < 2) return 2;
   f = fopen(argv[1], "r"); if (!f) return 2;
-  setvbuf(stdout, NULL, _IOLBF, 0);
+  if (argc > 2) { OUT = fopen(argv[2], "w"); if (!OUT) return 2; } else OUT = stdout;
+  setvbuf(OUT, NULL, _IOLBF, 0);
   while (fgets(line, sizeof line, f)) {
-    char* tok[300]; int nt = 0; char* p = strtok(line, " \n");
-    while (p && nt < 300) { tok[nt++] = p; p = strtok(NULL, " \n"); }
+    char* tok[2048]; int nt = 0; char* p = strtok(line, " \n");
+    while (p && nt < 2048) { tok[nt++] = p; p = strtok(NULL, " \n"); }
     if (nt == 0) continue;
     if (tok[0][0] == 'S') { int s = atoi(tok[1]), i; setN[s] = atoi(tok[2]); for (i = 0; i < setN[s]; i++) sets[s][i] = strtoull(tok[3 + i], NULL, 0); continue; }
     step++;
     switch (tok[0][0]) {
     case 'I': { int k = atoi(tok[1]); cur = k; memset(&insts[k], 0, sizeof insts[k]);
-      if (setjmp(jb) == 0) { @M@Instantiate(&insts[k], resolve); printf("%d I %d ok\n", step, k); }
-      else printf("%d I %d fail:%s\n", step, k, trapName(trapCode));
+      if (setjmp(jb) == 0) { @M@Instantiate(&insts[k], resolve); fprintf(OUT, "%d I %d ok\n", step, k); }
+      else fprintf(OUT, "%d I %d fail:%s\n", step, k, trapName(trapCode));
       break; }
     case 'c': { U64 a[32]; int i; for (i = 3; i < nt; i++) a[i - 3] = strtoull(tok[i], NULL, 0); doCall(step, atoi(tok[1]), atoi(tok[2]), a, nt - 3); break; }
     case 'x': { int inst = atoi(tok[1]), fk = atoi(tok[2]), ns = nt - 3, idx[8] = {0}, s[8], i, k; U64 a[8];
@@ -179,15 +181,19 @@ int main(int argc, char** argv) {
       break; }
     case 'm': memHash(getMem(atoi(tok[1]), atoi(tok[2])), step); break;
     case 'w': { wasmMemory* m = getMem(atoi(tok[1]), atoi(tok[2])); unsigned long a = strtoul(tok[3], NULL, 0), n = strtoul(tok[4], NULL, 0), i;
-      printf("%d w %lu ", step, a); for (i = a; i < a + n; i++) printf("%02x", m->data[i]); printf("\n"); break; }
+      fprintf(OUT, "%d w %lu ", step, a); for (i = a; i < a + n; i++) fprintf(OUT, "%02x", m->data[i]); fprintf(OUT, "\n"); break; }
     case 'P': { wasmMemory* m = getMem(atoi(tok[1]), atoi(tok[2])); unsigned long a = strtoul(tok[3], NULL, 0); size_t i, n = nt > 4 ? strlen(tok[4]) / 2 : 0;
-      for (i = 0; i < n; i++) { unsigned v; sscanf(tok[4] + 2 * i, "%2x", &v); m->data[a + i] = (U8)v; } printf("%d P ok\n", step); break; }
-    case 't': printf("%d t n=%lu h=0x%llx [%s]\n", step, traceN, traceH, traceLen ? traceBuf : "");
+      for (i = 0; i < n; i++) { unsigned v; sscanf(tok[4] + 2 * i, "%2x", &v); m->data[a + i] = (U8)v; } fprintf(OUT, "%d P ok\n", step); break; }
+    case 't': fprintf(OUT, "%d t n=%lu h=0x%llx [%s]\n", step, traceN, traceH, traceLen ? traceBuf : "");
       traceN = 0; traceH = W2C2_LL(0xcbf29ce484222325U); traceLen = 0; traceItems = 0; traceBuf[0] = 0; break;
-    case 'T': { wasmTable* t = getTbl(atoi(tok[1]), atoi(tok[2])); U32 i; printf("%d T size=%u ", step, t->size);
-      for (i = 0; i < t->size; i++) putchar(t->data[i] ? '1' : '0'); printf("\n"); break; }
-    case 'G': printf("%d G 0x%llx\n", step, getGlobal(atoi(tok[1]))); break;
-    default: printf("%d ?\n", step);
+    case 'T': { wasmTable* t = getTbl(atoi(tok[1]), atoi(tok[2])); U32 i; fprintf(OUT, "%d T size=%u ", step, t->size);
+      for (i = 0; i < t->size; i++) fputc(t->data[i] ? '1' : '0', OUT); fprintf(OUT, "\n"); break; }
+    case 'G': fprintf(OUT, "%d G 0x%llx\n", step, getGlobal(atoi(tok[1]))); break;
+    case 'k': { wasmMemory* m = getMem(atoi(tok[1]), atoi(tok[2])); unsigned long a = strtoul(tok[3], NULL, 0), n = strtoul(tok[4], NULL, 0), i; U32 c = 0xffffffffu; int b;
+      for (i = a; i < a + n; i++) { c ^= m->data[i]; for (b = 0; b < 8; b++) c = (c >> 1) ^ (0xedb88320u & (0u - (c & 1u))); }
+      fprintf(OUT, "%d k 0x%x\n", step, c ^ 0xffffffffu); break; }
+@WASICASES@
+    default: fprintf(OUT, "%d ?\n", step);
     }
   }
   return 0;
@@ -195,7 +201,21 @@ int main(int argc, char** argv) {
 '''
 
 
-def gen_driver(plan, module_name, header, multi=False, shared_ok=True):
+WASI_CASES = r"""
+    case 'A': case 'E': { int i, n = nt - 1; char** v = (char**)calloc((size_t)n + 1, sizeof(char*));
+      for (i = 0; i < n; i++) { size_t L = strlen(tok[1 + i]) / 2, j; if (tok[1 + i][0] == '-') L = 0; v[i] = (char*)malloc(L + 1);
+        for (j = 0; j < L; j++) { unsigned x; sscanf(tok[1 + i] + 2 * j, "%2x", &x); v[i][j] = (char)x; } v[i][L] = 0; }
+      v[n] = NULL; if (tok[0][0] == 'A') { wasiArgc = n; wasiArgv = v; } else wasiEnvp = v;
+      fprintf(OUT, "%d %c %d\n", step, tok[0][0], n); break; }
+    case 'W': { static char* none[1] = {NULL}; bool ok = wasiInit(wasiArgc, wasiArgv ? wasiArgv : none, wasiEnvp ? wasiEnvp : none);
+      fprintf(OUT, "%d W %d\n", step, (int)ok); break; }
+    case 'D': { size_t L = strlen(tok[1]) / 2, j; char* pth = (char*)malloc(L + 1); U32 fd = 0; bool ok;
+      for (j = 0; j < L; j++) { unsigned x; sscanf(tok[1] + 2 * j, "%2x", &x); pth[j] = (char)x; } pth[L] = 0;
+      ok = wasiFileDescriptorAdd(-1, pth, &fd); fprintf(OUT, "%d D %d %u\n", step, (int)ok, fd); free(pth); break; }
+"""
+
+
+def gen_driver(plan, module_name, header, multi=False, shared_ok=True, wasi=False):
     """C source of the driver for one module."""
     M = module_name
     o = [DRIVER_HEAD.replace('@HEADER@', header).replace('@M@', M)]
@@ -203,6 +223,8 @@ def gen_driver(plan, module_name, header, multi=False, shared_ok=True):
     mems, tbls, globs = [], [], []
     for imp in plan.imports:
         sym = escape(imp['mod']) + '__' + escape(imp['name'])
+        if imp['kind'] == 'func' and wasi and imp['mod'].startswith('wasi'):
+            continue
         if imp['kind'] == 'func':
             fsym = (M + '_' + sym) if multi else sym
             ps, rs = imp['params'], imp['results']
@@ -293,7 +315,11 @@ def gen_driver(plan, module_name, header, multi=False, shared_ok=True):
     for k, e in enumerate(plan.exports):
         o.append('  {th%d, "%s"},' % (k, e['results'][0] if e['results'] else 'v'))
     o.append('  {0, 0}};')
-    tail = DRIVER_TAIL.replace('@M@', M)
+    tail = DRIVER_TAIL.replace('@M@', M).replace('@WASICASES@', WASI_CASES if wasi else '')
+    if wasi:
+        o.insert(1, '#include "wasi.h"\nstatic int wasiArgc; static char** wasiArgv; static char** wasiEnvp;\n'
+                    'static wasmMemory* getMem(int inst, int ref);\n'
+                    'wasmMemory* wasiMemory(void* instance) { int k = 0; if ((char*)instance >= (char*)insts && (char*)instance < (char*)(insts + NINST)) k = (int)((Inst*)instance - insts); return getMem(k, 0); }\n')
     tail = tail.replace('int main(int argc, char** argv) {\n', 'int main(int argc, char** argv) {\n  initImports();\n', 1)
     o.append(tail)
     return '\n'.join(o)
